@@ -1033,7 +1033,7 @@ def gen_mcmc(rng, k):
                 data_seed=rng.randrange(10 ** 9), n_samples=rng.choice([12, 14]), n_burnin=6, n_thinning=2)
 
 
-def run_mcmc(ctx, spec):
+def run_mcmc(ctx, spec, mc_cases=None, mc_meta=None):
     import random
     from syne_tune.optimizer.schedulers.searchers.bayesopt.gpautograd.constants import MCMCConfig
     from syne_tune.optimizer.schedulers.searchers.bayesopt.gpautograd.gpr_mcmc import GPRegressionMCMC
@@ -1075,6 +1075,7 @@ def run_mcmc(ctx, spec):
         distinct = any(not np.allclose(samples[0], s_, rtol=1e-6) for s_ in samples[1:])
         ctx.h("mcmc_samples_distinct", distinct)
         preds = model.predict(Xt.copy())
+        gps, obs, coq_ok = [], [], True
         for i, (sample, state) in enumerate(zip(samples, states)):
             hp = decode(sample)
             ibs = [float(v) for v in hp["inverse_bandwidths"]]
@@ -1084,7 +1085,12 @@ def run_mcmc(ctx, spec):
             mu, var = state.predict(Xt.copy())
             mu, var = np.asarray(mu).reshape(-1), np.asarray(var).reshape(-1)
             nl = float(np.reshape(state.neg_log_likelihood(), (-1,))[0])
-            dense_compare(ctx, viol, st, Xc, yc, Xt, ref, mval, noise, mu, var, nl, ref.k(Xc, Xc))
+            res = dense_compare(ctx, viol, st, Xc, yc, Xt, ref, mval, noise, mu, var, nl, ref.k(Xc, Xc))
+            gps.append("(mkGP NumF %s %s %s %s)" % (_fvec(ref.ib), _fl(ref.cs), _fl(mval), _fl(noise)))
+            if res is None or not res["plain_noise"] or not C_TOL * 16 * EPS * res["cond"] < 0.1:
+                coq_ok = False
+            else:
+                obs.append("(%s, %s, %s, %s)" % (_fmat(mu.reshape(-1, 1)), _fvec(var), _fl(4 * res["tolM"]), _fl(4 * res["tolV"])))
             pm, pv = preds[i]
             if not (np.array_equal(np.asarray(pm).reshape(-1), mu) and np.array_equal(np.asarray(pv).reshape(-1), var)):
                 viol("model.predict()[%d] differs from states[%d].predict" % (i, i), "predict_list", st)
@@ -1093,6 +1099,12 @@ def run_mcmc(ctx, spec):
             if not (np.allclose(got_ib, ref.ib, rtol=1e-9) and abs(float(kp["covariance_scale"]) - ref.cs) <= 1e-9 * ref.cs):
                 viol("the kernel of state %d reports parameters %s, its hyper-parameter sample is %s"
                      % (i, got_ib + [float(kp["covariance_scale"])], list(ref.ib) + [ref.cs]), "state_params", st)
+        if mc_cases is not None and coq_ok:
+            from syne_tune.optimizer.schedulers.searchers.bayesopt.gpautograd.constants import MIN_POSTERIOR_VARIANCE
+            mc_cases.append("(%s, %s, [%s], (mkGD NumF %s %s), %s, [%s])" % (
+                _fl(JITTER), _fl(MIN_POSTERIOR_VARIANCE), "; ".join(gps), _fmat(Xc), _fvec(np.asarray(yc).reshape(-1)),
+                _fmat(Xt), "; ".join(obs)))
+            mc_meta.append(dict(kind="gpm", spec=spec))
     model.fit({"features": X.copy(), "targets": y.copy()})
     check_all(X, y, "fit")
     Xn, yn = rows(spec["extra"])
